@@ -139,15 +139,19 @@ func c28Gen(t *rapid.T) c28Case {
 		}
 		other := ident.Produce(c.Terms[rapid.IntRange(0, i-1).Draw(t, "idOf")], ident.UpperCase)
 		var id string
-		switch rapid.IntRange(0, 2).Draw(t, "idKind") {
+		switch rapid.IntRange(0, 4).Draw(t, "idKind") {
 		case 0:
 			id = other
 		case 1:
 			id = strings.ToLower(other)
+		case 3: // the ID syntax admits inner dashes: upper-case and lower-case spellings
+			id = fmt.Sprintf("ID-%d", i)
+		case 4:
+			id = other + "-x"
 		default:
 			id = fmt.Sprintf("ID%d", i)
 		}
-		if c28Ident.MatchString(id) && !c28Reserved[id] {
+		if c28IDRe.MatchString(id) && !c28Reserved[id] {
 			if c.IDs == nil {
 				c.IDs = map[int]string{}
 			}
